@@ -40,6 +40,8 @@ type c15Prog struct {
 	Init    [][]kvPair `json:"init"` // per substore
 	Ops     []c15Op    `json:"ops,omitempty"`
 	Threads [][]c15Op  `json:"threads,omitempty"` // concurrent mode (single store, get/has/set/del only)
+	// every key, value and bound handed to the stores carries this much spare (poisoned) capacity
+	Spare int `json:"spare,omitempty"`
 }
 
 // ---------------------------------------------------------------------------------------------
@@ -100,6 +102,7 @@ func genInit(t *rapid.T, label string, allowEmpty bool) []kvPair {
 func genC15(t *rapid.T, tier string) interface{} {
 	p := &c15Prog{NStores: 1}
 	p.Base = rapid.SampledFrom([]string{"mem", "mem", "iavl", "prefix", "multi", "conc"}).Draw(t, "base")
+	p.Spare = rapid.SampledFrom([]int{0, 0, 1, 8}).Draw(t, "spare")
 	allowEmpty := p.Base == "mem"
 	if p.Base == "conc" {
 		p.Base = "mem"
@@ -299,20 +302,20 @@ func execC15(prog interface{}, c *Case) *Violation {
 		cur := m.view(top)
 		switch o.Op {
 		case "get":
-			k := unhex(o.K)
+			k := withSpare(unhex(o.K), p.Spare)
 			got := st.Get(k)
 			want, ok := cur[string(k)]
 			if (got == nil) != !ok || !bytes.Equal(got, want) {
 				return violf("C15/get", "op %d Get(%x) = %x, model %x (present %v)", idx, k, got, want, ok)
 			}
 		case "has":
-			k := unhex(o.K)
+			k := withSpare(unhex(o.K), p.Spare)
 			_, ok := cur[string(k)]
 			if got := st.Has(k); got != ok {
 				return violf("C15/has", "op %d Has(%x) = %v, model %v", idx, k, got, ok)
 			}
 		case "set":
-			k, v := unhex(o.K), unhex(o.V)
+			k, v := withSpare(unhex(o.K), p.Spare), withSpare(unhex(o.V), p.Spare)
 			st.Set(k, v)
 			m.ov[top-1].put(string(k), v)
 			s.touch(top, o.St, string(k))
@@ -320,7 +323,7 @@ func execC15(prog interface{}, c *Case) *Violation {
 				return v
 			}
 		case "del":
-			k := unhex(o.K)
+			k := withSpare(unhex(o.K), p.Spare)
 			st.Delete(k)
 			m.ov[top-1].remove(string(k))
 			s.touch(top, o.St, string(k))
@@ -328,7 +331,7 @@ func execC15(prog interface{}, c *Case) *Violation {
 				return v
 			}
 		case "iter":
-			start, end := optBytes(o.S), optBytes(o.E)
+			start, end := withSpare(optBytes(o.S), p.Spare), withSpare(optBytes(o.E), p.Spare)
 			var it stypes.Iterator
 			if o.Rev {
 				it = st.ReverseIterator(start, end)
@@ -369,7 +372,7 @@ func execC15(prog interface{}, c *Case) *Violation {
 			if s.iters[o.It] != nil {
 				s.iters[o.It].it.Close()
 			}
-			start, end := optBytes(o.S), optBytes(o.E)
+			start, end := withSpare(optBytes(o.S), p.Spare), withSpare(optBytes(o.E), p.Spare)
 			oi := &c15OpenIter{level: top, st: o.St, start: start, end: end, asc: !o.Rev, atOpen: cur, touched: map[string]bool{}, yieldSet: map[string]bool{}}
 			if o.Rev {
 				oi.it = st.ReverseIterator(start, end)
